@@ -508,18 +508,18 @@ func TestC10(t *testing.T) {
 	r := vkit.Start(t, "C10", "fault_enumeration")
 	defer r.Finish()
 	r.Rule("(a) histories of 8–18 ops (write batches of single-field points with conforming and conflicting types over 2 measurements × 2 fields × 5 types, drop measurement, clean restart, unclean restart = crash image of the live directories) with dropped count, schema and values compared with the model after every op; (b) a write registering new fields torn at byte prefixes of its fields.idxl append (every byte in thorough); (c) N concurrent writers creating one field with different types. non-trivial = history has a type conflict and a restart / torn case has >3 images / race has ≥2 types; distinct = hash of the history")
-	n := r.N(60, 2000)
+	n := r.N(60, 700)
 	for i := 0; i < n; i++ {
 		c10History(r, i, r.Rand(i))
 		if r.Violations() > 5 {
 			return
 		}
 	}
-	nt := r.N(6, 120)
+	nt := r.N(6, 60)
 	for i := 0; i < nt; i++ {
 		c10Torn(r, i, r.SubRand("torn", i), !r.Quick())
 	}
-	nc := r.N(40, 1500)
+	nc := r.N(40, 500)
 	for i := 0; i < nc; i++ {
 		c10Concurrent(r, i, r.SubRand("conc", i))
 		if r.Violations() > 5 {
